@@ -135,18 +135,19 @@ def cases(tier):
                     encs = ["utf8"]
                     if field not in STR_FIELDS and not field.startswith("dns_") and TOKS[tok][1] == "c1":
                         encs.append("latin1")
+                    single = tok not in BASE_TOKENS  # per-code-point tokens (thorough): the two detail levels that echo least / most
                     for enc in encs:
-                        for detail in range(5):
-                            for showhost in ((False, True) if hook in HTTP_HOOKS else (False,)):
+                        for detail in ((1, 4) if single else range(5)):
+                            for showhost in ((False, True) if hook in HTTP_HOOKS and (not single or field in ("http_host", "http_authority")) else (False,)):
                                 base = {"hook": hook, "field": field, "variant": variant, "tok": tok, "enc": enc,
                                         "detail": detail, "showhost": showhost, "view": "auto", "ctype": None}
                                 out.append(base)
                                 if field in BODY_FIELDS and detail >= 3 and not showhost and variant == VARIANTS.get(hook, ["-"])[0]:
-                                    if thorough or tok in ("esc", "csi", "nul", "plain"):
+                                    if (thorough and not single) or tok in ("esc", "csi", "nul", "plain"):
                                         for v in vws:
                                             if v != "auto":
                                                 out.append(dict(base, view=v))
-                                    if field in ("req_body", "resp_body") and (thorough or tok in ("esc", "csi", "del")):
+                                    if field in ("req_body", "resp_body") and ((thorough and not single) or tok in ("esc", "csi", "del")):
                                         for ct in CTYPES[1:]:
                                             out.append(dict(base, ctype=ct))
     return out
@@ -398,6 +399,7 @@ def run(ctx):
         "payload_tokens": {k: repr(TOKS[k][0]) for k in toks} if not ctx.thorough else "every Cc code point U+0000-001F, 007F, 0080-009F singly + %s" % list(BASE_TOKENS),
         "byte_encodings": ["utf-8", "latin-1 (C1 tokens in byte fields)"],
         "flow_detail": [0, 1, 2, 3, 4], "showhost": [False, True], "styling": [False, True],
+        "per_code_point_tokens": "thorough only: flow_detail 1 and 4, content view auto, showhost varied for the host fields" if ctx.thorough else "not in this tier",
         "content_views_for_bodies": views(), "content_types_for_http_bodies": CTYPES,
         "cases": len(cs),
     }
